@@ -53,8 +53,9 @@ def strategy(tier):
         "fault_kind": st.sampled_from(["msg", "msg", "msg", "bad-kwargs", "noargs", "stopiteration", "assert", "keyerror",
                                        "odd-message", "non-str-arg", "base", "bad-request", "bad-request"]),
         "drive": st.sampled_from(["start", "bounded", "step", "mixed"]),
-        "cuts": st.lists(st.integers(0, 9), min_size=1, max_size=4),
-        "mix": st.lists(st.sampled_from(["step", "run", "step", "start"]), min_size=1, max_size=10),
+        # (cut 10 is the replication end itself; "runx" is the exclusive bounded run)
+        "cuts": st.lists(st.integers(0, 10), min_size=1, max_size=4),
+        "mix": st.lists(st.sampled_from(["step", "run", "step", "start", "runx"]), min_size=1, max_size=10),
     })
 
 
@@ -130,11 +131,11 @@ def _one_run(out, prog, strat, drive, cuts, mix, tag, log_level=None, prev=None,
         if drive == "start":
             cmds = []
         elif drive == "bounded":
-            cmds = [["run", c] for c in sorted(cuts)]
+            cmds = [["runx" if resume_at_clock and len(cuts) > 1 else "run", c] for c in sorted(cuts)]
         elif drive == "step":
             cmds = [["step"]] * 40
         else:
-            cmds = [[m] if m != "run" else ["run", cuts[i % len(cuts)]] for i, m in enumerate(mix)]
+            cmds = [[m] if m not in ("run", "runx") else [m, cuts[i % len(cuts)]] for i, m in enumerate(mix)]
         cmds = cmds + [["start"]] * (2 + len(prog.get("faults", [])))
         guard = 0
         i = 0
@@ -154,10 +155,12 @@ def _one_run(out, prog, strat, drive, cuts, mix, tag, log_level=None, prev=None,
                         out.fail("step-raised-" + type(err).__name__,
                                  {"tag": tag, "err": repr(err), "ref_result": r})
             else:
-                if c[0] == "run":
+                if c[0] in ("run", "runx"):
                     b = _bound(ref, c[1], ck)
-                    r = ref.run(b, True)
-                    err = h.run_piece(["run_up_to_incl", _jt(b, ck)])
+                    r = ref.run(b, c[0] == "run")
+                    err = h.run_piece(["run_up_to_incl" if c[0] == "run" else "run_up_to", _jt(b, ck)])
+                    if c[0] == "runx":
+                        out.label("exclusive-bounded-run")
                 else:
                     r = ref.run()
                     if r == "fault" and eager:
